@@ -15,6 +15,7 @@ NOT_APPLICABLE = []
 
 PROPS = {
     "C03": {
+        "extra_theorems": [("EdsProofs.FactsBridge", "facts_times")],
         "level_text": 'Lean theorems C03_budget / C03_cap / C03_unavailable_first / C03_percent / C03_paused_no_delete for every list of targeted nodes (any length, any order = any Go map iteration order), every strategy and clock, about the model of ManageDeployment; the budget kernel is the translated limits.go (C03_kernel_is_source). Tied to the code by differential execution of the real ManageDeployment and CalculatePodToCreateAndDelete on every run.',
         "level_note": TB + 'Modelled by hand (tied by correspondence, not verified): the ManageDeployment loop and pod classification. Assumes float64 ceil = integer ceil below 2^45 and minReadySeconds = 0.',
         "streams": [("limits", 3000, 60000), ("manage_deployment", 1500, 30000)],
@@ -62,7 +63,7 @@ PROPS = {
     "C20": {
         "level_text": 'Lean theorems C20_pairs (the label-info pairs are a permutation of {(sanitize k, v)} for every label map, including colliding keys and the empty map), C20_lengths, C20_sanitize_legal, C20_sanitize_id; the real BuildInfoLabels / sanitizeLabelName run on label maps with dots, slashes, dashes, collisions, non-ASCII and nil maps against the model.',
         "level_note": TB + 'Modelled by hand: BuildInfoLabels and the sanitiser (Go regexp replaced rune-wise). The gauge families of metrics.go are compared with status fields by the metrics stream when registered.',
-        "streams": [("labels", 3000, 60000)],
+        "streams": [("labels", 3000, 60000), ("metrics", 2000, 40000)],
         "trusted_base": [
             "model of BuildInfoLabels / sanitizeLabelName (lean/EdsModel/Metrics.lean) written by hand; tied by the labels stream (dots, slashes, dashes, colliding keys, empty and nil maps, non-ASCII)",
             "Go regexp [^a-zA-Z0-9_] replaced rune-wise; Lean's Char.isAlphanum restricted to ASCII",
@@ -104,9 +105,9 @@ PROPS = {
         "assumptions": COMMON_ASSUME + ["container names are unique within a pod template and within a setting (API validation for pods; by convention for settings)"],
     },
     "C15": {
-        "level_text": "Lean theorems about the model of selectNodes (distinctness, validity of every listed node, keeping of still-valid nodes in order, count reaching the request resolved against the targeted nodes rounding up, error when short) for every node population, pod restart history, replicas value, node selector, anti-affinity keys and previously selected list; the real selectNodes runs against a fake API server holding the nodes and pods and its result is compared with the model's and with the specification clauses (distinct, new-valid, keep, count, all-valid).",
+        "level_text": "Lean theorems about the model of selectNodes: C15_distinct, C15_new_valid, C15_removed_only_unfit / C15_kept_prefix / C15_keep_order / C15_keep (still-valid nodes kept in order, additions after them), C15_short_iff / C15_never_exceeds / C15_reaches_request / C15_count (error iff short, never beyond the request through the controller's own choice), C15_percent / C15_request_resolved_against_targeted, C15_error_if_short / C15_reconcile_error (the reconcile returns an error and writes no status), C15_all_valid_if_listed (the complement of known finding F6a), C15_least_restarts (every added node has no more restarts than any listed fit node left out), C15_spread (anti-affinity quota) for every node population, pod restart history, replicas value, node selector, anti-affinity keys and previously selected list; the real selectNodes runs against a fake API server holding the nodes and pods and its result is compared with the model's and with the specification clauses (distinct, new-valid, keep, count, all-valid).",
         "level_note": TB + "Modelled by hand: selectNodes (restart-ordered candidates, anti-affinity quota, fitness). Go's sort.Slice is an insertion sort (stable) for <= 12 elements, which is what the stream uses; larger populations are compared up to the specification clauses only. The trigger (when the EDS reconcile calls selectNodes) is covered by the eds_reconcile stream.",
-        "streams": [("select_nodes", 3000, 60000), ("fitness", 1000, 20000)],
+        "streams": [("select_nodes", 3000, 60000), ("fitness", 1000, 20000), ("scenario", 30, 800)],
         "trusted_base": ["hand-written model of selectNodes tied by the select_nodes stream; label-selector conversion re-implemented in the model"],
         "assumptions": COMMON_ASSUME + ["node names are unique (API server)"],
     },
@@ -122,7 +123,7 @@ PROPS = {
         "level_text": "Lean theorems C12_lists_scoped / C12_list_sites_known (obligations on the client.List call sites extracted from the Go source on this run: every list of replica sets, pods or settings carries a namespace option), C12_deletes_owned, C12_create_owned (every replica set the EDS reconcile deletes or creates is in its namespace, carries its name label, is owned by it) about the model of the EDS Reconcile; the real Reconcile runs against a fake API server populated with replica sets and pods of a same-named EDS in another namespace and of another EDS in the same namespace, every write is intercepted and classified own/foreign, and the writes are compared with the model's.",
         "level_note": TB + "Modelled by hand: the EDS Reconcile as store -> writes (ReconcileEds.lean). The list-site facts come from tools/extract (syntactic: option composite literals and InNamespace calls reaching the List call). Pod-level writes of the replica-set controller: C12_ers_writes_owned / C12_ers_creates_owned / C12_ers_counts_own (EdsProps/C12b) on the model of its Reconcile, tied by the ers_reconcile stream with foreign-namespace, other-EDS, old-DaemonSet and overlapping-label stray pods.",
         "streams": [("eds_reconcile", 2500, 40000), ("ers_reconcile", 2500, 40000)],
-        "extra_theorems": [("EdsProps.C12b", "C12_")],
+        "extra_theorems": [("EdsProofs.FactsBridge", "facts_keys"), ("EdsProps.C12b", "C12_")],
         "trusted_base": ["tools/extract list-site facts; hand-written L2 model of the EDS Reconcile tied by the eds_reconcile stream (fake client = consistent reads)"],
         "assumptions": COMMON_ASSUME,
     },
@@ -153,6 +154,7 @@ PROPS = {
         "assumptions": COMMON_ASSUME + ["replica-set names are unique within a namespace (API server)"],
     },
     "C13": {
+        "extra_theorems": [("EdsProofs.FactsBridge", "facts_keys")],
         "level_text": "Lean theorems on the model of the EDS Reconcile: C13_create_only_if_none, C13_created_faithful (template hash, hash annotation, name label even when the EDS's own labels define that key, namespace, owner), C13_reuse / C13_reuse_selects (re-applying or reverting to a template reuses its replica set), C13_cleanup_safe / C13_active_never_deleted / C13_uptodate_never_deleted / C13_in_use_never_deleted / C13_cleanup_zero_each, and the history invariant C13_at_most_one / C13_at_most_one_history / C13_at_most_one_from_empty (over ANY interleaving of reconciles with arbitrary spec/annotation/status changes and replica-set status updates, at most one replica set per template hash exists), C13_spec_never_written / C13_survivors_unchanged; tied by the eds_reconcile stream (create-only-if-none, created-faithful, cleanup-safe evaluated on the real writes) and the hash stream.",
         "level_note": TB + "Modelled by hand: the EDS Reconcile. Template identity = MD5 of the JSON of the pod template, computed by the real GenerateMD5PodTemplateSpec in the harness (collision freedom and insensitivity to map construction order are assumptions exercised by the hash checks). Holds under read-your-writes; informer-cache staleness is outside the model. The PodTemplate mirror is covered by the podtemplate stream when registered.",
         "streams": [("eds_reconcile", 2500, 40000)],
@@ -164,7 +166,7 @@ PROPS = {
         "level_text": "Lean theorems: C14_status_function (the status computed by the EDS reconcile satisfies the declarative Spec.C14 clauses: current/ready/available are sums over its replica sets, desired/upToDate from the active and, during a canary, the canary replica set, state/reason/canary block and the Canary-Paused/Canary-Failed conditions agree with the canary facts and annotations, in every branch), C14_eds_writes_status / C14_written_status_ok / C14_no_write_means_current, C14_ers_order and C14_ers_order_canary (0 <= available <= ready <= current <= desired for the active and canary role, for every node/pod layout), C14_unknown_zero_desired, C14_conditions_update / C14_transition_time; the real Reconcile functions run against the model (eds_reconcile, ers_reconcile, manage_deployment, manage_canary streams) and the same Spec.C14 clauses are evaluated on the statuses they write.",
         "level_note": TB + "Modelled by hand: both Reconcile functions. The quiescent clause (counters equal the numbers of pods that exist / are Ready / run the live template) is checked by the scenario stream at quiescence and inherits C02's partial label.",
         "streams": [("eds_reconcile", 2000, 40000), ("ers_reconcile", 1500, 30000), ("manage_deployment", 800, 16000), ("manage_canary", 800, 16000)],
-        "extra_theorems": [("EdsProofs.FactsBridge", "facts_states")],
+        "extra_theorems": [("EdsProofs.FactsBridge", "facts_keys"), ("EdsProofs.FactsBridge", "facts_states")],
         "trusted_base": ["hand-written L2 models of both Reconcile functions tied by the eds_reconcile / ers_reconcile streams"],
         "partial": ["C14_quiescent: scenario-level evidence only"],
         "assumptions": COMMON_ASSUME,
@@ -178,6 +180,7 @@ PROPS = {
         "assumptions": COMMON_ASSUME + ["cooperative scheduling of reconcilers and kubelet (fairness)"],
     },
     "C04": {
+        "extra_theorems": [("EdsProofs.FactsBridge", "facts_times"), ("EdsProofs.FactsBridge", "facts_keys")],
         "level_text": "Lean theorems on the model of the replica-set Reconcile (EdsProps/C04): C04_roles_disjoint / C04_role_cases (at most one active and one canary role per EDS status), C04_canary_creates_in_list (the canary role creates and update-deletes only on status.canary.nodes) with C04_created_pinned / C04_created_node_listed, C04_active_avoids_list (the active role neither creates nor deletes nor cleans up on canary nodes), C04_active_serves_rest (every other listed fit node stays a key of the active role's map), C04_unknown_inert (a leftover replica set issues no pod write at all), C04_label_scope / C04_label_on / C04_label_off (canary label added by the canary role on its own pods on canary nodes, removed by the active role within the 5-minute window), for every store; list growth bounded by the resolved replicas is evaluated on every EDS status write (C04.list-growth) and follows the selectNodes model (C15). Tied by the ers_reconcile stream and by the scenario stream (histories with a second template change during a canary, node churn, pause/unpause/fail, every reconcile order).",
         "level_note": TB + "Modelled by hand: the replica-set Reconcile as store -> write batches (ReconcileErs.lean), roles from the EDS status. History clauses (the list only grows up to the request; the label is gone once the replica set is active) are per-step theorems plus scenario evidence, not an induction over histories.",
         "streams": [("ers_reconcile", 2500, 40000), ("manage_canary", 1000, 20000), ("manage_unknown", 500, 10000), ("scenario", 25, 600)],
